@@ -36,6 +36,14 @@ def ack_payload(r, D):
                               z3.And(smt.vlen(D) == 1, smt.vseq(D)[0] == r))))
 
 
+def out_same_at(o0, o1, x, tag='sa'):
+    """the packets queued on connection x are the same (observationally: same count, same records)"""
+    i = z3.Int(tag + '_i')
+    names = ('ptype', 'ns', 'id', 'data')
+    return z3.And(o1.c['.len'][x] == o0.c['.len'][x],
+                  z3.ForAll([i], z3.Implies(z3.And(i >= 0, i < o0.c['.len'][x]), z3.And(*[o1.c['.' + f][x][i] == o0.c['.' + f][x][i] for f in names]))))
+
+
 def out_one(pre, post, e, fields_ok):
     """exactly one more packet queued on e (with fields_ok(record index) holding), nothing on any other connection"""
     o0, o1 = pre.get(*OUT), post.get(*OUT)
@@ -47,8 +55,7 @@ def out_one(pre, post, e, fields_ok):
         'one-packet-to-the-sender': o1.c['.len'][e] == n + 1,
         'packet-fields': fields_ok(lambda f: o1.c['.' + f][e][n]),
         'earlier-packets-kept': z3.ForAll([j], z3.Implies(z3.And(j >= 0, j < n), z3.And(*[o1.c['.' + f][e][j] == o0.c['.' + f][e][j] for f in names]))),
-        'nothing-to-anyone-else': z3.ForAll([x], z3.Implies(x != e, z3.And(o1.c['.len'][x] == o0.c['.len'][x],
-                                                                            *[o1.c['.' + f][x] == o0.c['.' + f][x] for f in names]))),
+        'nothing-to-anyone-else': z3.ForAll([x], z3.Implies(x != e, out_same_at(o0, o1, x))),
     }
 
 
@@ -93,22 +100,47 @@ def event_effect(c, pre, post, sid, eio_sid, data, ns, id_, names, raised=False)
     return d
 
 
+def confined(c, pre, post, sid, eio_sid):
+    """C12: whatever the payload, at most handlers on behalf of THIS client run, only THIS transport is answered"""
+    from pyvc.model import sv_equiv
+    d0, d1 = pre.get(*DISP), post.get(*DISP)
+    o0, o1 = pre.get(*OUT), post.get(*OUT)
+    i = z3.Int('cf_i')
+    x = z3.Const('cf_x', V)
+    names = ('ptype', 'ns', 'id', 'data')
+    same = []
+    for n in d0.c:
+        if n != 'len':
+            same.append(d1.c[n][i] == d0.c[n][i])
+    return {
+        'handlers-run-only-on-behalf-of-the-sender': z3.And(
+            d1.c['len'] >= d0.c['len'],
+            z3.ForAll([i], z3.Implies(z3.And(i >= 0, i < d0.c['len']), z3.And(*same))),
+            z3.ForAll([i], z3.Implies(z3.And(i >= d0.c['len'], i < d1.c['len']), z3.And(d1.c['args#len'][i] >= 1, d1.c['args#arr'][i][0] == sid)))),
+        'nothing-sent-to-other-transports': z3.ForAll([x], z3.Implies(x != eio_sid, out_same_at(o0, o1, x))),
+    }
+
+
 def handle_event_internal_contract(world, target):
     names = c13.SERVER_RESERVED
 
     def req(c):
         d = dict(c13.handlers_ok(c.pre, 'server'))
-        d['wellformed-event'] = wellformed_event(c.a.data)
-        d['event-name-not-star'] = smt.vseq(c.a.data)[0] != c13.STAR
-        d['ns-not-star'] = c.a.namespace != c13.STAR
+        d['dom.event-name-not-star'] = z3.Implies(wellformed_event(c.a.data), smt.vseq(c.a.data)[0] != c13.STAR)
+        d['dom.ns-not-star'] = c.a.namespace != c13.STAR
         return d
+    wf = lambda c: wellformed_event(c.a.data)
+    bad = lambda c: z3.Not(wellformed_event(c.a.data))
+    conf = lambda c: confined(c, c.pre, c.post, c.a.sid, c.a.eio_sid)
     return Contract(
         target=target, schema=world, self_obj='server',
         params={'server': ('obj', 'server'), 'sid': 'V', 'eio_sid': 'V', 'data': 'V', 'namespace': 'V', 'id': 'V'},
         requires=req,
-        cases=[Case('handled', post=lambda c: event_effect(c, c.pre, c.post, c.a.sid, c.a.eio_sid, c.a.data, c.a.namespace, c.a.id, names)),
-               Case('handler-raises', kind='raise', exc='Exception',
-                    post=lambda c: event_effect(c, c.pre, c.post, c.a.sid, c.a.eio_sid, c.a.data, c.a.namespace, c.a.id, names, raised=True))],
+        cases=[Case('handled', when=wf, post=lambda c: event_effect(c, c.pre, c.post, c.a.sid, c.a.eio_sid, c.a.data, c.a.namespace, c.a.id, names)),
+               Case('handler-raises', when=wf, kind='raise', exc='Exception',
+                    post=lambda c: event_effect(c, c.pre, c.post, c.a.sid, c.a.eio_sid, c.a.data, c.a.namespace, c.a.id, names, raised=True)),
+               Case('malformed-payload', when=bad, post=conf),
+               Case('malformed-payload.raises', when=bad, kind='raise', exc='Exception', post=conf)],
         modifies=[DISP, OUT, ('g', 'raw'), CALLS], props=['C05', 'C02'],
         must_fail=lambda c: {'handled:claims-no-ack-ever': c.post.get(*OUT).c['.len'][c.a.eio_sid] == c.pre.get(*OUT).c['.len'][c.a.eio_sid]})
 
@@ -124,15 +156,22 @@ def handle_event_contract(world, target):
     def req(c):
         d = dict(c13.handlers_ok(c.pre, 'server'))
         d.update(inv_m(c.pre))
-        d['wellformed-event'] = wellformed_event(c.a.data)
-        d['event-name-not-star'] = smt.vseq(c.a.data)[0] != c13.STAR
-        d['ns-not-star'] = eff_ns(c.a.namespace) != c13.STAR
+        d['dom.event-name-not-star'] = z3.Implies(wellformed_event(c.a.data), smt.vseq(c.a.data)[0] != c13.STAR)
+        d['dom.ns-not-star'] = eff_ns(c.a.namespace) != c13.STAR
         return d
 
-    def is_conn(c):
+    def is_conn0(c):
         ns = eff_ns(c.a.namespace)
         s = client_of(c.pre, c.a.eio_sid, ns)
         return z3.And(is_owner(c.pre, ns, c.a.eio_sid), connected(c.pre, ns, s))
+
+    def is_conn(c):
+        return z3.And(is_conn0(c), wellformed_event(c.a.data))
+
+    def conf(c):
+        ns = eff_ns(c.a.namespace)
+        return confined(c, c.pre, c.post, client_of(c.pre, c.a.eio_sid, ns), c.a.eio_sid)
+    bad = lambda c: z3.Not(wellformed_event(c.a.data))
 
     def eff(raised):
         def post(c):
@@ -155,9 +194,11 @@ def handle_event_contract(world, target):
         cases=[Case('connected', when=is_conn, post=handled_or_contained),
                Case('connected.handler-raises', when=lambda c: z3.And(is_conn(c), z3.Not(c.pre.get('server', 'async_handlers').leaf())),
                     kind='raise', exc='Exception', post=eff(True)),
-               Case('not-connected', when=lambda c: z3.Not(is_conn(c)),
+               Case('not-connected', when=lambda c: z3.And(z3.Not(is_conn0(c)), wellformed_event(c.a.data)),
                     post=lambda c: {'nothing-invoked': sv_equiv(c.post.get(*DISP), c.pre.get(*DISP)),
-                                    'not-answered': sv_equiv(c.post.get(*OUT), c.pre.get(*OUT))})],
+                                    'not-answered': sv_equiv(c.post.get(*OUT), c.pre.get(*OUT))}),
+               Case('malformed-payload', when=bad, post=conf),
+               Case('malformed-payload.raises', when=bad, kind='raise', exc='Exception', post=conf)],
         modifies=[DISP, OUT, ('g', 'raw'), CALLS], props=['C05', 'C12'],
         must_fail=lambda c: {'not-connected:claims-a-dispatch': c.post.get(*DISP).c['len'] == c.pre.get(*DISP).c['len'] + 1})
 
@@ -166,7 +207,6 @@ def handle_ack_contract(world, target):
     def req(c):
         d = dict(inv_m(c.pre))
         d.update(cb_ok(c.pre))
-        d['ack-payload-is-a-list'] = smt.kind(c.a.data) == smt.K_LIST
         d['id-came-off-the-wire'] = wire_value(c.a.id)
         return d
 
